@@ -414,7 +414,7 @@ func run(p *kernel.Plan) (res *kernel.Result) {
 			return res.Fail("C04/lost-response", "request %s tid=%v never got its response matched", r.name, r.tid)
 		}
 	}
-	if oe.Cause(s.A.RecvErr) != io.EOF {
+	if c := oe.Cause(s.A.RecvErr); c != io.EOF && c != io.ErrUnexpectedEOF {
 		return res.Fail("C04/end-error", "reader ended with %v", s.A.RecvErr)
 	}
 	// cross-check: the history must be linearizable against the sequential map
